@@ -48,10 +48,9 @@ theorem q7_preActions {c : Cfg α} {s : St α} (q : Q7 s) : Q7 (preActions c s) 
   refine ⟨?_, ?_, ?_, ?_⟩
   · rw [preActions_pc', preActions_success]
     intro h1 h2
-    rcases q.sad h1 h2 with h | h | h
+    rcases q.sad h1 h2 with h | h
     · exact Or.inl (by rw [preActions_exitSt]; exact h)
-    · exact Or.inr (Or.inl (preActions_userAbort_mono h))
-    · exact Or.inr (Or.inr (by rw [preActions_trace]; exact h))
+    · exact Or.inr (preActions_userAbort_mono h)
   · rw [preActions_trace, preActions_pc', preActions_success]; exact q.hard
   · rw [preActions_pc', preActions_success]; exact q.early
   · rw [preActions_pc', preActions_exitSt]; exact q.cde
